@@ -19,7 +19,8 @@ Record iobs := mkIobs {
   io_users : list user; io_rm : list (bytes * list bytes);
   io_mails : list mail; io_smss : list sms;
   io_calls : list callkind;
-  io_logs : list bytes          (* the log lines of this step, whole *)
+  io_logs : list bytes;         (* the log lines of this step, whole *)
+  io_sms_tried : list sms       (* handed to the SMS gateway, which reported a failure (not in io_smss; ghost only) *)
 }.
 
 Definition near (a b : Z) : bool := Z.abs (a - b) <=? 2.
